@@ -26,6 +26,50 @@ type MNode struct {
 	Layer   int
 	// Unreadable (deviations only): the entry is listed but its backing file is gone.
 	Unreadable bool
+	// Alt: the layer that supplies this regular file carries several entries for the path (same
+	// cleaned name, e.g. "app/config" and "./app/config").  Which of them wins is not fixed by the
+	// statement; the view has to show ONE of them consistently (size, content).  "\x00"-joined.
+	Alt string
+	// AltMixed (deviation duplicate-entry-rewrites-backing-file): size of one of the entries with
+	// the bytes of another is what the view shows.
+	AltMixed bool
+	// MaybeUnreadable (same deviation): the further entry was at or over the size limit; unpacking
+	// and discarding it removed the backing file.
+	MaybeUnreadable bool
+}
+
+// whiteoutAboveBefore: the layer has a whiteout of a proper ancestor of p earlier in the stream
+// than its first regular-file entry for p (that entry's node is then missing from the layer's
+// own view).
+func whiteoutAboveBefore(l *LayerSpec, p string) bool {
+	first := -1
+	for i := range l.Entries {
+		if e := &l.Entries[i]; e.Kind == "f" && e.Path == p {
+			first = i
+			break
+		}
+	}
+	for i := 0; i < first; i++ {
+		if e := &l.Entries[i]; e.Kind == "w" && isUnder(p, e.Path) {
+			return true
+		}
+	}
+	return false
+}
+
+// altContents lists the contents of all regular-file entries of the layer for path p if there
+// are several, else "".
+func altContents(l *LayerSpec, p string) string {
+	var cs []string
+	for i := range l.Entries {
+		if e := &l.Entries[i]; e.Kind == "f" && e.Path == p {
+			cs = append(cs, string(e.Content()))
+		}
+	}
+	if len(cs) < 2 {
+		return ""
+	}
+	return strings.Join(cs, "\x00")
 }
 
 func (n MNode) String() string {
@@ -99,7 +143,7 @@ func Ambiguous(spec *ImageSpec) string {
 			}
 			switch e.Kind {
 			case "f", "d", "l":
-				if k, dup := seen[e.Path]; dup && k != "w" {
+				if k, dup := seen[e.Path]; dup && k != "w" && !(k == "f" && e.Kind == "f") {
 					return fmt.Sprintf("layer %d: %s appears twice", li, e.Path)
 				}
 				if _, dup := seen[e.Path]; !dup || seen[e.Path] == "w" {
@@ -212,9 +256,12 @@ func applyLayer(state map[string]MNode, l *LayerSpec, li int) {
 		case "o":
 			mkdirs(append(ancestors(e.Path), e.Path))
 		case "f":
+			if n, ok := state[e.Path]; ok && n.Kind == "f" && n.Layer == li && n.Alt != "" {
+				continue // a further entry for the same path: see MNode.Alt
+			}
 			mkdirs(ancestors(e.Path))
 			del(e.Path, true)
-			state[e.Path] = MNode{Kind: "f", Perm: e.Perm, PermDef: true, Data: string(e.Content()), Layer: li}
+			state[e.Path] = MNode{Kind: "f", Perm: e.Perm, PermDef: true, Data: string(e.Content()), Layer: li, Alt: altContents(l, e.Path)}
 		case "l":
 			mkdirs(ancestors(e.Path))
 			del(e.Path, true)
@@ -245,10 +292,15 @@ const (
 	DevPrune   = "final-view-pruning"        // final view only: removing a whiteout node drops its whole subtree (below the top level) and every ancestor below the top level left without children
 	DevAbs     = "absolute-name-dropped"     // an entry with an absolute name vanishes (only its parent directories appear)
 	DevDirMode = "dir-mode-from-placeholder" // a directory's mode is that of the first/newest node created for it, which is the mode-less placeholder when a child came first
+	// a layer has two regular-file entries for one path AND an earlier whiteout of a directory above
+	// it: the first entry's node is missing from the layer's own view, so the second entry is
+	// unpacked too and overwrites the backing file, while later views keep the FIRST entry's node:
+	// size of one entry, bytes of the other
+	DevDupRewrite = "duplicate-entry-rewrites-backing-file"
 )
 
 // AllDeviations in the order used for keys.
-var AllDeviations = []string{DevAbs, DevDirMode, DevPrune, DevNondir, DevOpaque, DevTop, DevOrder, DevShallow}
+var AllDeviations = []string{DevAbs, DevDirMode, DevDupRewrite, DevPrune, DevNondir, DevOpaque, DevTop, DevOrder, DevShallow}
 
 // DevSet is a set of deviation names.
 type DevSet map[string]bool
@@ -388,6 +440,9 @@ func RefOverlay(spec *ImageSpec, layers []int, dev DevSet, final bool) *ModelVie
 				n := MNode{Kind: e.Kind, Perm: e.Perm, PermDef: true, Layer: li}
 				if e.Kind == "f" {
 					n.Data = string(e.Content())
+					n.Alt = altContents(l, e.Path)
+					n.AltMixed = n.Alt != "" && dev[DevDupRewrite] && whiteoutAboveBefore(l, e.Path)
+					n.MaybeUnreadable = e.overDup && dev[DevDupRewrite] && whiteoutAboveBefore(l, e.Path)
 				} else {
 					n.Target, _ = linkTarget(e.Path, e.Target)
 				}
@@ -572,8 +627,25 @@ func compareNode(where, p string, o NodeObs, m MNode, perm bool) *Mismatch {
 	if o.Type != m.Kind {
 		return &Mismatch{where + "-type", fmt.Sprintf("%s %s: is %s, expected %s", where, p, o, m)}
 	}
+	if m.Kind == "f" && m.Alt != "" && !m.Unreadable {
+		sizeOK, dataOK := false, false
+		for _, c := range strings.Split(m.Alt, "\x00") {
+			if o.Data == c && o.Size == int64(len(c)) && o.Err == "" {
+				return nil
+			}
+			sizeOK = sizeOK || o.Size == int64(len(c))
+			dataOK = dataOK || o.Data == c
+		}
+		if m.AltMixed && sizeOK && dataOK && o.Err == "" {
+			return nil
+		}
+		return &Mismatch{where + "-content", fmt.Sprintf("%s %s: size %d, %d readable bytes %q %s: none of the layer's entries for that path (%q)", where, p, o.Size, len(o.Data), o.Data, o.Err, strings.Split(m.Alt, "\x00"))}
+	}
 	if perm && m.PermDef && int(o.Perm) != m.Perm {
 		return &Mismatch{where + "-mode", fmt.Sprintf("%s %s: mode o%o, expected o%o", where, p, o.Perm, m.Perm)}
+	}
+	if m.Kind == "f" && m.MaybeUnreadable && o.Data == "" && o.Err == "read:notexist" && o.Size == int64(len(m.Data)) {
+		return nil
 	}
 	if m.Kind == "f" && m.Unreadable {
 		if o.Data != "" || o.Err != "read:notexist" {
